@@ -49,6 +49,9 @@ pub struct RestartCase {
     pub second_returns: usize,
     /// the second solve is seeded with two solutions: a poor one (no tour, every job unassigned) first, the stored one second
     pub two_seeds: bool,
+    /// the stored document is edited before it is read back: one tour is taken out, its jobs are listed as unassigned (what
+    /// a user does who releases a vehicle); never a tour whose vehicle shift is named by a sequence / strict relation
+    pub drop_tour: bool,
 }
 
 pub fn make_case(seed: u64, tier: Tier) -> RestartCase {
@@ -64,7 +67,8 @@ pub fn make_case(seed: u64, tier: Tier) -> RestartCase {
     }
     let second_returns = *p.pick(&[1usize, 1, 2, 3, 6, 9]);
     let two_seeds = p.chance(0.3);
-    RestartCase { first, second_config: c.config, second_spec, second_returns, two_seeds }
+    let drop_tour = p.chance(0.25);
+    RestartCase { first, second_config: c.config, second_spec, second_returns, two_seeds, drop_tour }
 }
 
 /// `via_solver`: the identical (deterministic) execution, but through the real entry point `Solver::solve`, which selects
@@ -204,6 +208,42 @@ fn second_run(case: &RestartCase, stored: &str, via_solver: bool) -> crate::kern
     })
 }
 
+/// Takes the last tour out of a stored solution whose vehicle shift no sequence / strict relation names and lists its jobs
+/// as unassigned.
+fn release_one_vehicle(problem: &Value, stored: &str, rec: &mut CaseRecord) -> String {
+    let Ok(mut doc) = serde_json::from_str::<Value>(stored) else { return stored.to_string() };
+    let pinned = |vehicle: &str, shift: u64| {
+        problem["plan"]["relations"].as_array().into_iter().flatten().any(|r| {
+            r["type"].as_str() != Some("any") && r["vehicleId"].as_str() == Some(vehicle) && r.get("shiftIndex").and_then(|s| s.as_u64()).unwrap_or(0) == shift
+        })
+    };
+    let tours = doc["tours"].as_array().cloned().unwrap_or_default();
+    let Some(ti) = (0..tours.len()).rev().find(|ti| !pinned(tours[*ti]["vehicleId"].as_str().unwrap_or(""), tours[*ti]["shiftIndex"].as_u64().unwrap_or(0))) else { return stored.to_string() };
+    let mut ids: Vec<String> = vec![];
+    for stop in tours[ti]["stops"].as_array().into_iter().flatten() {
+        for a in stop["activities"].as_array().into_iter().flatten() {
+            if matches!(a["type"].as_str(), Some("pickup") | Some("delivery") | Some("service") | Some("replacement")) {
+                if let Some(id) = a["jobId"].as_str() {
+                    if !ids.iter().any(|x| x == id) {
+                        ids.push(id.to_string());
+                    }
+                }
+            }
+        }
+    }
+    if let Some(t) = doc["tours"].as_array_mut() {
+        t.remove(ti);
+    }
+    let mut unassigned = doc["unassigned"].as_array().cloned().unwrap_or_default();
+    for id in &ids {
+        unassigned.push(json!({ "jobId": id, "reasons": [{ "code": "NO_REASON_FOUND", "description": "unknown" }] }));
+    }
+    doc["unassigned"] = Value::Array(unassigned);
+    rec.count("restart.stored_documents_with_a_released_vehicle", 1);
+    rec.count("restart.jobs_released", ids.len() as u64);
+    serde_json::to_string(&doc).unwrap_or_else(|_| stored.to_string())
+}
+
 fn record(case: &RestartCase, seed: u64) -> CaseRecord {
     let out1 = w1::execute(&case.first);
     let v1 = w1::judge(&case.first, &out1);
@@ -219,6 +259,7 @@ fn record(case: &RestartCase, seed: u64) -> CaseRecord {
             return rec;
         }
     };
+    let stored = if case.drop_tour { release_one_vehicle(&case.first.problem, &stored, &mut rec) } else { stored };
     rec.count("restart.first_runs_stored", 1);
     rec.count("faults.first_run_clock_stalls_fired", out1.stalls_fired);
     let out2 = second_run(case, &stored, false);
@@ -362,12 +403,13 @@ impl Scenario for RestartScenario {
         doc["second_spec"] = c.second_spec.to_json();
         doc["second_returns"] = json!(c.second_returns);
         doc["two_seeds"] = json!(c.two_seeds);
+        doc["drop_tour"] = json!(c.drop_tour);
         doc
     }
     fn replay(&self, doc: &Value) -> CaseRecord {
         let seed = doc.get("case_seed").and_then(|s| s.as_u64()).unwrap_or(0);
         match (W1Case::from_json(doc), doc.get("second_config"), doc.get("second_spec").and_then(RunSpec::from_json)) {
-            (Some(first), Some(cfg), Some(spec)) => record(&RestartCase { first, second_config: cfg.clone(), second_spec: spec, second_returns: doc.get("second_returns").and_then(|n| n.as_u64()).unwrap_or(1) as usize, two_seeds: doc.get("two_seeds").and_then(|b| b.as_bool()).unwrap_or(false) }, seed),
+            (Some(first), Some(cfg), Some(spec)) => record(&RestartCase { first, second_config: cfg.clone(), second_spec: spec, second_returns: doc.get("second_returns").and_then(|n| n.as_u64()).unwrap_or(1) as usize, two_seeds: doc.get("two_seeds").and_then(|b| b.as_bool()).unwrap_or(false), drop_tour: doc.get("drop_tour").and_then(|b| b.as_bool()).unwrap_or(false) }, seed),
             _ => CaseRecord { harness_error: Some("replay file is not a restart case".into()), ..Default::default() },
         }
     }
